@@ -247,3 +247,36 @@ func VH_C08_retryWait() {
 	vAssert(err == nil && m.posts == 1, "batch-with-retry-waits-completes")
 	vCover("retry-wait-bound")
 }
+
+// a sequential batch is sequential wherever it runs: a concurrency-0 batch node run (with the
+// context its caller was given) from inside an item of a CONCURRENT batch still executes its items
+// strictly one at a time, in item order
+func VH_C08_nestedSeq() {
+	vUnwind(24)
+	inflight := [2]int{}
+	next := [2]int{}
+	outerExec := func(ctx context.Context, item Result) (Result, error) {
+		o := bIndex(item)
+		inner := NewBatchNode().WithBatchConcurrency(0).
+			WithPrepFunc(func(ctx context.Context, s *SharedStore) ([]Result, error) { return bItems(2), nil }).
+			WithExecFunc(func(ctx context.Context, it Result) (Result, error) {
+				k := bIndex(it)
+				vMonC(1, func() {
+					inflight[o]++
+					vAssert(inflight[o] == 1, "sequential-one-at-a-time")
+					vAssert(k == next[o], "sequential-in-item-order")
+					next[o]++
+				})
+				vMonC(2, func() { inflight[o]-- })
+				return it, nil
+			})
+		_, err := Run(ctx, inner, NewSharedStore())
+		return item, err
+	}
+	outer := NewBatchNode().WithBatchConcurrency(2).
+		WithPrepFunc(func(ctx context.Context, s *SharedStore) ([]Result, error) { return bItems(vParam("outer", 1)), nil }).
+		WithExecFunc(outerExec)
+	_, err := Run(vNewCtx(), outer, NewSharedStore())
+	vAssert(err == nil, "c-mutually-dependent-items-complete")
+	vCover("sequential-batch-nested-in-a-concurrent-one")
+}
